@@ -44,11 +44,43 @@ func AppendStats(prefix string) {
 		return m
 	}
 	pre := map[string]feed{}
+	reimported := false           // a re-import happened earlier in the current history
+	impKey := map[string]string{} // feed -> batch counter its imported value sits under
 	for i, l := range ops {
 		t := strings.Fields(l)
 		a := hx.Args(t[2:])
 		res := strings.SplitN(obs[i], " ", 2)[0]
+		if t[1] == "reset" {
+			reimported = false
+			impKey = map[string]string{}
+		}
+		if reimported && res == "ok" && t[1] != "export" && t[1] != "reimport" && t[1] != "agg" && t[1] != "aggtol" {
+			c["branch.after-reimport.ok."+t[1]]++
+		}
 		switch t[1] {
+		case "export":
+			c["branch.export.validate-"+hx.Args(strings.Fields(obs[i]))["validate"]]++
+		case "reimport":
+			if res == "ok" {
+				reimported = true
+				impKey = map[string]string{}
+				for _, e := range strings.Split(hx.Args(strings.Fields(obs[i]))["batches"], ",") {
+					if p := strings.SplitN(e, ":", 2); len(p) == 2 && pre[p[0]].nvals > 0 {
+						impKey[p[0]] = p[1]
+					}
+				}
+			}
+			c["branch.reimport.same-"+hx.Args(strings.Fields(obs[i]))["same"]]++
+			for _, f := range pre {
+				switch {
+				case f.nvals >= 2:
+					c["branch.reimport.feed-with-2plus-values"]++
+				case f.nvals == 1:
+					c["branch.reimport.feed-with-1-value"]++
+				default:
+					c["branch.reimport.feed-without-value"]++
+				}
+			}
 		case "start_feed", "pause_feed", "edit_feed":
 			if f, ok := pre[a["name"]]; ok && f.creator != a["sender"] {
 				c["branch.stranger."+t[1]+"."+res]++
@@ -97,6 +129,18 @@ func AppendStats(prefix string) {
 					c["branch.cb.batch-below-threshold"]++
 				default:
 					c["branch.cb.batch-stored"]++
+					if reimported {
+						c["branch.cb.batch-stored-after-reimport"]++
+					}
+					if k, ok := impKey[p[1]]; ok {
+						if k == p[2] {
+							// the batch that was open at the import completes under the imported value's key
+							c["branch.cb.batch-overwrites-imported-value"]++
+						} else {
+							c["branch.cb.batch-appends-to-imported-value"]++
+						}
+						delete(impKey, p[1])
+					}
 					f := pre[p[1]]
 					neg, pos, inv := 0, 0, 0
 					for _, o := range outs {
